@@ -137,6 +137,11 @@ def run_full(harness, model, cases, syms=False):
     strjobs, strkeys = [], []
     for ci, c in enumerate(cases):
         seen = set()
+        for hint in c.get("lex_hints", ()):
+            t = "S" + hint.encode("utf8").hex()
+            if t not in seen:
+                seen.add(t)
+                strjobs.append("lex\t%s\t%s\t" % (c["arch"], t[1:])); strkeys.append((ci, t[1:]))
         for p in c["files"]:
             for t in toks.get((ci, p), "").split(" "):
                 t = t.rsplit("@", 1)[0]
